@@ -149,6 +149,19 @@ impl Recorder {
                 if let Val::Int(a) = v {
                     o.insert("refresh_aid".into(), json!(format!("{:010x}", a)));
                 }
+            } else if *k == "what" && e.kind == "HStep" {
+                if let Val::Str(w) = v {
+                    match w.split_once(':') {
+                        Some((a, b)) if a.starts_with("Lookup") || a == "TableRefresh" => {
+                            o.insert("what".into(), json!(a));
+                            o.insert("tid".into(), json!(b));
+                        }
+                        _ => {
+                            o.insert("what".into(), json!(w));
+                            o.insert("tid".into(), json!(""));
+                        }
+                    }
+                }
             } else {
                 o.insert((*k).to_owned(), self.val_json(v));
             }
@@ -391,6 +404,7 @@ pub enum Mode {
     Garbage,         // answers with an undecodable datagram
     DelayMs(u64),    // answers after a fixed delay
     EchoQuery,       // first sends a ping carrying the transaction id of the query it received, then answers
+    Hostile,         // answers, and additionally sends forged / replayed / mis-addressed variants of its answer
 }
 
 pub struct VNode {
@@ -409,12 +423,13 @@ pub struct OracleNet {
     pub by_addr: HashMap<SocketAddr, usize>,
     pub announces: Vec<(usize, Id, SocketAddr, bool)>, // (node index, info hash, contact, token ok)
     pub answer_delay_max: u64,
+    pub last_tids: Vec<Vec<u8>>,
 }
 
 impl OracleNet {
     pub fn new(nodes: Vec<VNode>) -> Self {
         let by_addr = nodes.iter().enumerate().map(|(i, n)| (n.addr, i)).collect();
-        OracleNet { nodes, by_addr, announces: vec![], answer_delay_max: 0 }
+        OracleNet { nodes, by_addr, announces: vec![], answer_delay_max: 0, last_tids: vec![] }
     }
     pub fn addrs(&self) -> Vec<SocketAddr> {
         self.nodes.iter().map(|n| n.addr).collect()
@@ -494,7 +509,37 @@ impl Scripted for Arc<Mutex<OracleNet>> {
                 let (n4, n6) = node_lists(&me, &ih);
                 let token = me.token_for(idx, d.src.ip());
                 let values: Vec<SocketAddr> = me.nodes[idx].peers.get(&ih).cloned().unwrap_or_default().into_iter().filter(|p| p.is_ipv4() == v4).collect();
-                reply(benc::r_generic(&t, &my_id, Some(&token), &values, &n4, &n6))
+                let mut out = reply(benc::r_generic(&t, &my_id, Some(&token), &values, &n4, &n6));
+                if mode == Mode::Hostile {
+                    let bogus = |n: u8| -> Vec<SocketAddr> { vec![(std::net::Ipv4Addr::new(66, 66, idx as u8, n), 6000 + n as u16).into()] };
+                    let other_src: SocketAddr = (std::net::Ipv4Addr::new(10, 66, 0, (idx % 250) as u8 + 1), 6881).into();
+                    let mut long_t = t.clone();
+                    long_t.push(7);
+                    let mut wrong_t = t.clone();
+                    if let Some(l) = wrong_t.last_mut() { *l = l.wrapping_add(1 + rng.gen_range(0..200)); }
+                    let short_t = t[..t.len().min(5)].to_vec();
+                    let prev = me.last_tids.clone();
+                    // replay of the genuine answer with other values and another token (after the first one was consumed)
+                    out.push((delay + rng.gen_range(1..900), d.dst, d.src, benc::r_generic(&t, &my_id, Some(b"REPLAYED-TOKEN"), &bogus(1), &n4, &n6)));
+                    // the same transaction id from a different source address (may legitimately win the race)
+                    out.push((delay + rng.gen_range(0..900), other_src, d.src, benc::r_generic(&t, &my_id, Some(&token), &values, &n4, &n6)));
+                    // transaction id one byte too long / last byte changed / truncated to the action prefix
+                    out.push((delay, d.dst, d.src, benc::r_generic(&long_t, &my_id, Some(b"LONG"), &bogus(3), &[(my_id, other_src)], &[])));
+                    out.push((delay, d.dst, d.src, benc::r_generic(&wrong_t, &my_id, Some(b"WRONG"), &bogus(4), &[], &[])));
+                    out.push((delay, d.dst, d.src, benc::r_generic(&short_t, &my_id, Some(b"SHORT"), &bogus(5), &[], &[])));
+                    // transaction ids of earlier queries (other searches, timed-out ones)
+                    for (k, old) in prev.iter().rev().take(3).enumerate() {
+                        out.push((delay + 10, d.dst, d.src, benc::r_generic(old, &my_id, Some(b"STALE"), &bogus(6 + k as u8), &[], &[])));
+                    }
+                    // node lists naming the requester itself, duplicates and unreachable nodes
+                    let mut req_id = [0u8; 20];
+                    if let Some(x) = a.get("id").and_then(|x| x.bytes()).filter(|x| x.len() == 20) { req_id.copy_from_slice(x); }
+                    let dupes = vec![(req_id, d.src), (my_id, d.dst), (my_id, d.dst), ([0x42; 20], (std::net::Ipv4Addr::new(10, 250, 0, 1), 1).into())];
+                    out.push((delay + 5, d.dst, d.src, benc::r_generic(&wrong_t, &my_id, None, &[], &dupes, &[])));
+                }
+                me.last_tids.push(t.clone());
+                if me.last_tids.len() > 64 { me.last_tids.remove(0); }
+                out
             }
             b"announce_peer" => {
                 let mut ih = [0u8; 20];
